@@ -225,6 +225,10 @@ class _Inliner:
                     self.names.add(x.arg)
             g = g.parent
         self.changed = False
+        self._locals: Set[str] = {p.arg for p in f.params}
+        for x in ast.walk(root):
+            if isinstance(x, ast.Name) and isinstance(x.ctx, ast.Store):
+                self._locals.add(x.id)
 
     # -- driver -------------------------------------------------------------------------------------
     def run(self) -> bool:
@@ -418,6 +422,15 @@ class _Inliner:
             return None
         h: FuncInfo = tg[0][1]
         if h.qualname in self.keep or h is self.f:
+            return None
+        # the call must name the helper itself: a callable held in a variable / attribute / parameter (whose default happens to
+        # be the helper) can be anything at run time
+        called = c.func.attr if isinstance(c.func, ast.Attribute) else c.func.id if isinstance(c.func, ast.Name) else None
+        if called != h.name:
+            return None
+        if isinstance(c.func, ast.Attribute) and h.cls is None and not isinstance(self.prog.resolve(self.f.module, c.func), FuncInfo):
+            return None
+        if isinstance(c.func, ast.Name) and (c.func.id in self._locals):
             return None
         if h.module is not self.f.module and not (h.cls is None and self._same_globals(h)):
             return None
